@@ -184,7 +184,9 @@ TStep == /\ l <= Len(Rec) /\ l' = l + 1 /\ UNCHANGED vars
                             ELSE PrintT(<<"VERDICT", ToJson([l |-> l, key |-> "spec_machine_disagrees_with_reference",
                                                              devs |-> DevKeys[x[1]]])>>)
                          /\ IF x[1] = 0
-                            THEN PrintT(<<"VERDICT", ToJson([l |-> l, key |-> v, want |-> KpWant(e)])>>)
+                            THEN PrintT(<<"VERDICT", ToJson([l |-> l, key |-> v, want |-> KpWant(e),
+                                                             under |-> [i \in 1..Len(DevSets) |->
+                                                                          <<DevKeys[i], KpVerdict(e, DevSets[i])[1]>>]])>>)
                             ELSE PrintT(<<"VERDICT", ToJson([l |-> l, key |-> v, devs |-> DevKeys[x[1]]])>>)
 TSpec == TInit /\ [][TStep]_<<vars, l>>
 Matched == TLCGet("stats").diameter - 1
